@@ -5,6 +5,8 @@ import (
 	"math/big"
 	"strings"
 
+	ecdsakeygen "github.com/bnb-chain/tss-lib/v2/ecdsa/keygen"
+
 	"verif/core"
 	"verif/ref"
 	"verif/sim"
@@ -13,16 +15,18 @@ import (
 // session describes one protocol run; make() builds a fresh world for it (parties cannot be cloned, so explorers
 // re-execute from scratch) and outcome() applies the result oracle of the protocol (C01-C04) to a finished world.
 type session struct {
-	Proto string // ecdsa-keygen | ecdsa-signing | ecdsa-resharing | eddsa-*
-	N, T  int
-	Sel   []int // signers / participating old members (indices into the key)
-	NN, NT int  // resharing: new committee
-	Key   string // key pattern: "vendored" or a keyIDs pattern
-	Msg   *big.Int
+	Proto  string // ecdsa-keygen | ecdsa-signing | ecdsa-resharing | eddsa-*
+	N, T   int
+	Sel    []int  // signers / participating old members (indices into the key)
+	NN, NT int    // resharing: new committee
+	Key    string // key pattern: "vendored" or a keyIDs pattern
+	Msg    *big.Int
 
 	env  *core.Env
 	keys keyset // signing / resharing input (pristine; every world gets a deep copy)
 	pub  ref.Pt
+	// preOverride: pre-parameters a (deviating) party brings instead of the vendored set: keygen party index / new member index
+	preOverride map[int]ecdsakeygen.LocalPreParams
 }
 
 func (s *session) curve() string {
@@ -70,7 +74,14 @@ func (s *session) make(seed int64) (*sim.World, keyset, error) {
 		if err != nil {
 			return nil, nil, err
 		}
-		return sim.ECDSAKeygen(seed, keyIDs(s.Key, s.N, "secp256k1", s.env.Seed), s.T, pre[:s.N]), nil, nil
+		use := make([]ecdsakeygen.LocalPreParams, s.N)
+		copy(use, pre[:s.N])
+		for i, pp := range s.preOverride {
+			if i < len(use) {
+				use[i] = pp
+			}
+		}
+		return sim.ECDSAKeygen(seed, keyIDs(s.Key, s.N, "secp256k1", s.env.Seed), s.T, use), nil, nil
 	case "eddsa-keygen":
 		return sim.EDDSAKeygen(seed, keyIDs(s.Key, s.N, "ed25519", s.env.Seed), s.T), nil, nil
 	case "ecdsa-signing", "eddsa-signing":
@@ -78,7 +89,7 @@ func (s *session) make(seed int64) (*sim.World, keyset, error) {
 		return in.SignWorld(seed, s.T, s.Msg, sim.SignOpts{}), in, nil
 	case "ecdsa-resharing", "eddsa-resharing":
 		in := s.keys.Copy().Subset(s.Sel)
-		w, err := in.ReshareWorld(s.env, seed, s.T, keyIDs("new", s.NN, s.curve(), s.env.Seed), s.NT, sim.ReshareOpts{OldN: s.N})
+		w, err := in.ReshareWorld(s.env, seed, s.T, keyIDs("new", s.NN, s.curve(), s.env.Seed), s.NT, sim.ReshareOpts{OldN: s.N, PreOverride: s.preOverride})
 		return w, in, err
 	}
 	return nil, nil, fmt.Errorf("unknown protocol %q", s.Proto)
